@@ -88,9 +88,52 @@ Definition c09_of (t : tree) : tree :=
      | _ => L []
      end].
 
+(* ---- histories on ONE Text instance (C09): the plain string after an in-place edit.  In the functional model
+   a measurement is a function of the current value; that the implementation keeps no stale memo across in-place
+   edits is tied by this correspondence (measure, edit, measure again on the same object).
+   edit = [kind, payload]: 0 append(str) 1 append_text(Text) 7 append_tokens([(str, None)]) -> plain ++ payload;
+   2 pad(n) 3 pad_left(n) 4 pad_right(n); 5 stylize (no change); 6 truncate(n, "crop", pad) payload [n, pad];
+   8 right_crop(n); 9 the plain setter *)
+Definition apply_edit (s : str) (e : tree) : str :=
+  let k := tZ (tNth e 0) in
+  let p := tNth e 1 in
+  if (k =? 0) || (k =? 1) || (k =? 7) then s ++ tStr p
+  else if k =? 2 then (if 0 <? tZ p then py_repeat SP (tZ p) ++ s ++ py_repeat SP (tZ p) else s)
+  else if k =? 3 then (if 0 <? tZ p then py_repeat SP (tZ p) ++ s else s)
+  else if k =? 4 then s ++ py_repeat SP (tZ p)
+  else if k =? 5 then s
+  else if k =? 6 then
+    @Wrap.plain unit (Wrap.truncate unit (tZ (tNth p 0)) Wrap.OV_CROP (tB (tNth p 1)) (Wrap.mkText s [] tt))
+  else if k =? 8 then firstn (Z.to_nat (Z.max 0 (zlen s - tZ p))) s
+  else tStr p.
+
+Fixpoint hist_plains (s : str) (es : list tree) : list str :=
+  match es with [] => [s] | e :: r => s :: hist_plains (apply_edit s e) r end.
+
+(* [cfg, s0, edits, avail]: after every step [plain, Text.__rich_measure__]; for the final value: the Text itself and a
+   fitted Panel around it (built BEFORE the edits on the implementation side), each [Measurement.get at avail,
+   [lines at the maximum, lines at the minimum]] *)
+Definition panel_fit (r : R) : R := Panel r (mkPanel 3 true false false [] 1 false None (0, 1, 0, 1) None None).
+Definition c09_hist_of (t : tree) : tree :=
+  let cf := tCfg (tNth t 0) in
+  let plains := hist_plains (tStr (tNth t 1)) (tL (tNth t 2)) in
+  let final := last plains [] in
+  let avail := tZ (tNth t 3) in
+  let obs (r : R) :=
+    let m := measure cf r avail in
+    L [ofRes ofM m;
+       match m with
+       | Ok (mn, mx) => L [enc false (render cf r ro0 mx); enc false (render cf r ro0 mn)]
+       | _ => L []
+       end] in
+  L [ofList (fun s => L [ofStr s; ofM (text_measure (fix_d20 cf) s)]) plains;
+     obs (Txt final None None None);
+     obs (panel_fit (Txt final None None None))].
+
 Definition ops : list (string * (tree -> tree)) := [
   ("c01", c01_of);
   ("c09", c09_of);
+  ("c09_hist", c09_hist_of);
   (* [cfg, R, W]: the same rendering as c01, for the UNGUARDED checker spec.fits (known-finding witnesses only;
      no generator emits it) *)
   ("fits_raw", fun t => enc false (render (tCfg (tNth t 0)) (tRR (tNth t 1)) ro0 (tZ (tNth t 2))));
